@@ -150,6 +150,27 @@ def _is_make_bottom(n):
     return is_call(n, name="make_bottom")
 
 
+def _is_seed(n):
+    """the value a predecessor join starts from: make_bottom(), or - at the block the analysis starts at - the initial states,
+    which enter that block like the post of one more predecessor:  `X == m_entry ? m_init : make_bottom()`  (finding F52: the
+    initial value used to be taken for the first visit only and was lost when the start block lies on a cycle)"""
+    def unwrap(x):
+        x = strip_move(x)
+        for _ in range(3):
+            if isinstance(x, dict) and x.get("k") == "ctor" and len(x.get("a", [])) == 1:
+                x = strip_move(x["a"][0])
+        return x
+    n = unwrap(n)
+    if _is_make_bottom(n):
+        return True
+    if isinstance(n, dict) and n.get("k") == "cond":
+        p = cmp_parts(n.get("c"))
+        t, e = unwrap(n.get("t")), unwrap(n.get("e"))
+        if p and p[0] == "==" and (is_field(p[1], "m_entry") or is_field(p[2], "m_entry")) and is_field(t, "m_init") and _is_make_bottom(e):
+            return True
+    return False
+
+
 def _join_loop_info(loop, fn):
     """for (prev : RANGE) { [if (COND)] ACC |= get_post(prev); }
        -> dict(acc id, range expr, filter cond or None) or None"""
@@ -231,9 +252,9 @@ def vertex_rule(ctx, rid):
             if n.get("k") in ("asg",) or (n.get("k") == "call" and n.get("op") == "="):
                 l = strip(n.get("L") if n.get("k") == "asg" else n.get("o"))
                 r = n.get("R") if n.get("k") == "asg" else (n["a"][0] if n.get("a") else None)
-                if isinstance(l, dict) and l.get("k") == "ref" and l.get("id") == acc and _is_make_bottom(r):
+                if isinstance(l, dict) and l.get("k") == "ref" and l.get("id") == acc and _is_seed(r):
                     return ("bottom",)
-            if n.get("k") == "decl" and n.get("id") == acc and "i" in n and _is_make_bottom(n["i"]):
+            if n.get("k") == "decl" and n.get("id") == acc and "i" in n and _is_seed(n["i"]):
                 return ("bottom",)
             if n.get("k") == "rangefor" and n is loop:
                 return ("joined",)
@@ -367,7 +388,7 @@ def _analyse_iteration_loop(ctx, fn, parts, loop, rid, which):
         return None
     newpre = info["acc"]
     d = parts["decls"].get(newpre)
-    if d is None or "i" not in d or not _is_make_bottom(d["i"]):
+    if d is None or "i" not in d or not _is_seed(d["i"]):
         ctx.bad("%s loop: `%s` does not start from make_bottom()" % (which, info["accname"]), fn, jl,
                 sig="%s-newpre-init" % which, rid=rid)
         return None
@@ -764,3 +785,48 @@ def compute_post_rule(ctx, rid):
         else:
             ctx.bad("set_post(%s) does not store the analysed post-state of `node`" % src(spa), fn, sp[0],
                     sig="compute-post-store", rid=rid)
+
+
+# ------------------------------------------------------------ initial states at the start block (finding F52)
+def initial_states_rule(ctx, rid):
+    """every predecessor join of wto_iterator::visit also receives the initial states when the block is the one the
+    analysis starts at, and no visit reads the stored pre-state of a block as the value to analyse it with"""
+    n = 0
+    for fn in _fns(ctx, WTOIT + "::visit"):
+        body = fn["body"]
+        g = paths.guards(body)
+        d = local_decls(body)
+        for loop in walk(body):
+            info = _join_loop_info(loop, fn) if loop.get("k") == "rangefor" else None
+            if info is None:
+                continue
+            n += 1
+            acc = info["acc"]
+            dd = d.get(acc) or {}
+            seeded = False
+            if "i" in dd and _is_seed(dd["i"]) and not _is_make_bottom(dd["i"]):
+                seeded = True
+            for c in walk(body):
+                if is_call(c, op="|=") and "o" in c and c.get("a"):
+                    o = strip(c["o"])
+                    if isinstance(o, dict) and o.get("k") == "ref" and o.get("id") == acc and is_field(strip_move(c["a"][0]), "m_init"):
+                        def atom(x):
+                            p = cmp_parts(x)
+                            return 1 if (p and p[0] == "==" and (is_field(p[1], "m_entry") or is_field(p[2], "m_entry"))) else 0
+                        if guard_truth(g.get(id(c), ()), atom, body) is True:
+                            seeded = True
+            if seeded:
+                ctx.ok("predecessor join into `%s` also receives the initial states at the start block" % info["accname"], fn, loop, rid=rid)
+            else:
+                ctx.bad("wto_iterator::visit joins the posts of the predecessors into `%s` without the initial states of the block the "
+                        "analysis starts at: when that block lies on a cycle (a loop head that is the CFG entry, or run(entry, ...) with "
+                        "an entry inside a loop) the value replaces the initial one and the states the analysis started from are lost "
+                        "(H: goto B or ret; B: x:=x+1; goto H from x=0 reports pre(H) = [2,+oo])" % info["accname"], fn, loop,
+                        sig="join-without-initial-states:%s" % info["accname"], rid=rid)
+        for c, ps in nodes_not_in_log(body, lambda x: is_call(x, name="get_pre")):
+            n += 1
+            ctx.bad("wto_iterator::visit uses the stored pre-state `%s` as the value to analyse a block with: the pre-state of the start "
+                    "block is the initial value only until the block is reached again through a predecessor" % src(c)[:50], fn, c,
+                    sig="visit-reads-stored-pre", rid=rid)
+    if n == 0:
+        ctx.fail("rule %s: no predecessor join found in wto_iterator::visit" % rid)
